@@ -12,7 +12,11 @@ THEOREMS = ['C08.stateful_run_pushes_advertised_conclusion', 'C08.basic_run_retu
             # the proof generator as written is the model (Pi2/Props/C08b.lean, Pi2/ProofTie.lean, vlib/transproof.py)
             'C08.proof_text_translated', 'C08.pattern_text_is_the_model', 'C08.memo_pattern_text_is_the_model',
             'C08.conclusions_text_is_the_model', 'C08.proof_text_is_the_model', 'C08.basic_text_is_the_model',
-            'C08.basic_text_differs_on_unshaped_plugs', 'C08.proof_text_asserts']
+            'C08.basic_text_differs_on_unshaped_plugs', 'C08.proof_text_asserts',
+            # the proof generator as written ON the StatefulInterpreter as written is the model (Pi2/ComposeTie.lean)
+            'C08.stateful_text_object_is_the_checking_tracker', 'C08.calling_convention_of_the_proof_text',
+            'C08.proof_text_on_stateful_text_is_proof_text_on_tracker', 'C08.pattern_text_on_stateful_text_is_the_model',
+            'C08.proof_text_on_stateful_text_is_the_model', 'C08.stateful_text_nonvacuous']
 
 
 def run(rep):
